@@ -153,6 +153,11 @@ def _common_ops(variants, damaged_depfile=False):
             for o in st.all_outs():
                 ops.append({"op": "rm", "path": o, "label": "rm " + o})
     for st in v0.stmts:
+        if not st.phony and not st.generator and not st.restat:
+            # an output whose time stamp is exactly the epoch (unpacked from an archive made reproducibly): it exists
+            ops.append({"op": "epoch", "path": st.all_outs()[0], "label": "touch -d @0 " + st.all_outs()[0]})
+            break
+    for st in v0.stmts:
         if st.deps == "gcc":
             # a depfile left behind by an earlier failed or killed command
             ops.append({"op": "write", "path": st.id + ".d", "content": st.id + ": " + " ".join(st.hidden) + "\n",
